@@ -386,6 +386,14 @@ def gen_case(run_seed: int, tier: str, index: int | None = None) -> dict[str, An
         inv = gen_invocation(w, names, forced)
         inv["knobs"] = gen_knobs(k)
         inv["uid_seed"] = k.getrandbits(32)
+        # the environment is an input of the command line but not of the property's statement:
+        # variables the code under test reads (found in its source; none today) are set in some
+        # invocations and must not change any result
+        from .check_c14 import env_names
+
+        names_env = env_names()
+        if names_env and k.random() < 0.2:
+            inv["env"] = {n_: ("dir" if any(t in n_.upper() for t in ("DIR", "TMP", "TEMP", "PATH", "CACHE", "HOME")) else k.choice(["1", "0", "true", "120", "40"])) for n_ in k.sample(names_env, k.randint(1, min(3, len(names_env))))}
         invs.append(inv)
     return {"check": CHECK, "run_seed": run_seed, "tier": tier, "tree": tree, "history": invs}
 
@@ -917,6 +925,16 @@ def spelled_out(argv: list[str]) -> list[str]:
     return argv[:i] + ["--inplace", "--nobackup", "--semantic", "--cleanups", "--smartquotes", "--ellipses"] + argv[i + 1 :]
 
 
+def _env_of(inv: dict[str, Any], scratch: str) -> dict[str, str] | None:
+    """Environment variables of this invocation (names the code under test reads; none today)."""
+    spec = inv.get("env")
+    if not spec:
+        return None
+    stage = os.path.join(scratch, "envdir")
+    os.makedirs(stage, exist_ok=True)
+    return {k_: (stage if v_ == "dir" else v_) for k_, v_ in spec.items()}
+
+
 def run_case(env: Env, case: dict[str, Any], want_trace: bool = False) -> dict[str, Any]:
     outer = tempfile.mkdtemp(prefix="dst-c15-" + os.environ.get("VERIF_RUN_TAG", "x") + "-", dir=SCRATCH_BASE)
     scratch = os.path.join(outer, "s", "s")  # nested, so that a defective `..` resolution under test stays inside the scratch directory
@@ -965,7 +983,7 @@ def _run_case(case: dict[str, Any], scratch: str, want_trace: bool) -> dict[str,
         pred = predict(model, inv, M)
         ip = simproc.Interposer(root, [], inv.get("knobs") or {})
         stdin = j2b(inv.get("stdin")) or b""
-        res = simproc.run_process(ip, make_fn(inv), stdin, cwd=root, uid_seed=inv.get("uid_seed", 0))
+        res = simproc.run_process(ip, make_fn(inv), stdin, cwd=root, uid_seed=inv.get("uid_seed", 0), env=_env_of(inv, scratch))
         after = tree_files(root)
         dirs_now = tree_dirs(root)
         inproc.append((res.exit, res.stdout, after))
@@ -1071,7 +1089,7 @@ def _run_case(case: dict[str, Any], scratch: str, want_trace: bool) -> dict[str,
             simproc.build_tree(root2, tree_spec(M))
             ip2 = simproc.Interposer(root2, [], inv.get("knobs") or {})
             inv2 = dict(inv, argv=spelled_out(inv["argv"]))
-            res2 = simproc.run_process(ip2, make_fn(inv2), stdin, cwd=root2, uid_seed=inv.get("uid_seed", 0))
+            res2 = simproc.run_process(ip2, make_fn(inv2), stdin, cwd=root2, uid_seed=inv.get("uid_seed", 0), env=_env_of(inv, scratch))
             after2 = tree_files(root2)
             counters["twin_runs"] += 1
             # (outcome equivalence; the sequence of file-system operations is the implementation's business)
